@@ -175,6 +175,37 @@ func Events() {
 	afterwards(n)
 }
 
+// BigBulk: a well-formed but large POST /events/bulk (BIG distinct events) on a log of PRIOR
+// events, placed so that the bulk crosses the 256 and 512 version boundaries and produces
+// more than a thousand store mutations: it is accepted, applied without a crash here and on
+// a fresh replica that replays the log, and the server keeps serving.
+func BigBulk() {
+	n := consensus.ZZNewSingle()
+	prior := rt.Param("PRIOR", 200)
+	big := rt.Param("BIG", 330)
+	for k := 0; k < prior/50; k++ {
+		var evs [][]byte
+		for i := 0; i < 50; i++ {
+			evs = append(evs, []byte{0x10 + byte(k), byte(i)})
+		}
+		if _, err := n.AddBulk(evs); err != nil {
+			panic(err)
+		}
+	}
+	var evs [][]byte
+	for i := 0; i < big; i++ {
+		evs = append(evs, []byte{0x80 + byte(i>>8), byte(i)})
+	}
+	w := serve(apihttp.AddBulk(n), request("POST", &protocol.EventsBulk{Events: evs}), "add-big-bulk")
+	if w == nil {
+		return
+	}
+	rt.Assert(w.code == http.StatusCreated, "big-bulk-accepted")
+	mp, err := n.QueryDigestMembership(consensus.ZZEventDigest(n, evs[big-1]))
+	rt.Assert(err == nil && mp.Exists && mp.ActualVersion == uint64(prior+big-1), "last-event-of-the-big-bulk-is-served")
+	afterwards(n)
+}
+
 // Proofs: the three proof endpoints with arbitrary decoded bodies.
 func Proofs() {
 	n := consensus.ZZNewSingle()
